@@ -195,7 +195,7 @@ def _nontrivial(case):
 
 def _run_hyp(arg):
     seed_value, n = arg
-    acc = Acc()
+    acc = runner.track(Acc())
 
     def body(case):
         try:
